@@ -53,7 +53,8 @@ var c18Allow = []string{"off", "on+empty", "on+creator", "on+creator,toggled-off
 const c18Mixed = "Wrapped/Asset:v1.X-y_Z"
 
 var c18Denoms = [][]string{{}, {"uregen"}, {"uregen", scen.IBC}, {"uregen", scen.IBC, c18Mixed, "stake"}}
-var c18Rates = []string{"", "0", "0.0", "0.01", "0.333333", "1", "1.5", "0.000000000000000001", "-1", "abc"}
+// the 34-digit third: a rate whose product with a 3-digit subtotal needs more than 34 significant digits
+var c18Rates = []string{"", "0", "0.0", "0.01", "0.333333", "1", "1.5", "0.000000000000000001", "0.3333333333333333333333333333333333", "-1", "abc"}
 
 type c18cfg struct {
 	classFee, basketFee int
@@ -650,6 +651,10 @@ func init() {
 		close(ch)
 		wg.Wait()
 		o.Findings = total.findings
+		bAcc, bOps := c18BridgeChains(newC18Env(), o)
+		o.Coverage["bridge_chain_configurations_offered"] = int64(len(c18BridgeNames)) * 2
+		o.Coverage["bridge_chain_configurations_accepted"] = bAcc
+		o.Coverage["bridge_chain_operations_run"] = bOps
 		o.Coverage["states"] = total.accepted
 		o.Coverage["transitions"] = total.opsRun
 		o.Coverage["traces_validated_against_impl"] = total.opsRun
